@@ -963,31 +963,37 @@ func propC07Ranges(c *Ctx) {
 				pLimit = p
 			}
 		}
+		reg := NewRegion(fn) // the test and the attach step may live in a helper of the routine (groupLogs)
+		is := func(v ssa.Value, p *ssa.Parameter) bool { return stripNum(reg.Resolve(stripNum(v))) == ssa.Value(p) }
 		isUpper := func(v ssa.Value) bool {
 			b, ok := v.(*ssa.BinOp)
-			return ok && b.Op == token.ADD && ((b.X == pStart && b.Y == pLimit) || (b.Y == pStart && b.X == pLimit))
+			return ok && b.Op == token.ADD && ((is(b.X, pStart) && is(b.Y, pLimit)) || (is(b.Y, pStart) && is(b.X, pLimit)))
 		}
 		// blockNum values: conversions of a BlockNum field
 		isBlockNum := func(v ssa.Value) bool {
 			f, _ := loadedField(stripNum(v))
 			return f != nil && f.Name() == "BlockNum"
 		}
-		_, lowOK := cmpEdges(fn, func(b *ssa.BinOp) bool { return b.Op == token.LSS && isBlockNum(b.X) && b.Y == pStart })
-		_, highOK := cmpEdges(fn, func(b *ssa.BinOp) bool {
-			return (b.Op == token.GEQ || b.Op == token.GTR) && isBlockNum(b.X) && isUpper(b.Y)
-		})
 		n := 0
 		defer func(fn *ssa.Function, desc string) {
 			if n == 0 {
 				c.Violation("R7.5", fnName(fn)+"/range-test-before-attach", fn.Pos(), "no "+desc+" site found: the routine's shape changed")
 			}
 		}(fn, spec.attDesc)
-		allInstrs(fn, func(in ssa.Instruction) {
+		reg.AllInstrs(func(in ssa.Instruction) {
 			if !spec.attach(in) {
 				return
 			}
+			g := in.Parent()
+			if g.Pkg != fn.Pkg {
+				return
+			}
+			_, lowOK := cmpEdges(g, func(b *ssa.BinOp) bool { return b.Op == token.LSS && isBlockNum(b.X) && is(b.Y, pStart) })
+			_, highOK := cmpEdges(g, func(b *ssa.BinOp) bool {
+				return (b.Op == token.GEQ || b.Op == token.GTR) && isBlockNum(b.X) && isUpper(b.Y)
+			})
 			n++
-			ok := len(lowOK) > 0 && len(highOK) > 0 && guardedByEdges(fn, in, lowOK) && guardedByEdges(fn, in, highOK)
+			ok := len(lowOK) > 0 && len(highOK) > 0 && guardedByEdges(g, in, lowOK) && guardedByEdges(g, in, highOK)
 			c.Check("R7.5", fmt.Sprintf("%s/range-test-before-attach#%d", fnName(fn), n), instrPos(in), ok, spec.attDesc+" happens only for block numbers tested against [start, start+limit]")
 		})
 	}
